@@ -29,8 +29,18 @@ ReqAskedClose == T.rq.conn = "close" \/ (T.rq.conn = "none" /\ T.rq.ver = 10)
 Expected == IF NoBody THEN 0 ELSE IF T.app.cl >= 0 THEN Min(T.app.total, T.app.cl) ELSE T.app.total
 WB == T.app.wb
 
+(* the application raised: the client gets either one complete error reply (nothing of the application's
+   response had been sent) or a visibly cut-off response followed by close - never anything after it *)
+FailVerdict(e) ==
+  IF ~e.wellformed \/ e.junk > 0 \/ e.nresp > 1 THEN "AbortedResponseFollowedByGarbage"
+  ELSE IF ~T.app.started /\ (e.status < 500 \/ e.conn # "close") THEN "FailureBeforeOutputNotAnErrorReply"
+  ELSE IF T.app.started /\ e.status # T.app.status THEN "AbortedResponseFollowedByGarbage"
+  ELSE IF T.app.started /\ e.te /\ e.complete /\ ~NoBody THEN "AbortedResponseLooksComplete"
+  ELSE "ok"
+
 RespVerdict(e) ==
-  IF ~WB THEN (IF e.wellformed /\ e.cl >= 0 /\ ~NoBody /\ e.body + e.junk > e.cl /\ e.mode = "cl"
+  IF T.app.fail # "none" THEN FailVerdict(e)
+  ELSE IF ~WB THEN (IF e.wellformed /\ e.cl >= 0 /\ ~NoBody /\ e.body + e.junk > e.cl /\ e.mode = "cl"
                THEN "ExceedsContentLength" ELSE "ok")
   ELSE IF ~e.wellformed \/ e.nresp # 1 \/ e.junk > 0 THEN "NotExactlyOneResponse"
   ELSE IF e.status # T.app.status THEN "StatusMismatch"
@@ -43,7 +53,8 @@ RespVerdict(e) ==
 
 AfterVerdict(e) ==
   LET r == seen IN
-  IF ~e.open \/ ~WB THEN "ok"
+  IF T.app.fail # "none" THEN (IF e.open THEN "KeptOpenAfterApplicationFailure" ELSE "ok")
+  ELSE IF ~e.open \/ ~WB THEN "ok"
   ELSE IF r.cl < 0 /\ ~r.te /\ ~NoBody THEN "KeptOpenWithoutDelimiter"
   ELSE IF ReqAskedClose THEN "KeptOpenAgainstClient"
   ELSE IF r.conn # "keep-alive" THEN "KeptOpenButAnnouncedClose"
